@@ -37,6 +37,7 @@ const (
 	findingAliasTruncate = "C04-alias-truncation"
 	findingKindBackticks = "C04-kind-backticks"
 	findingPgxFFFD       = "C04-pgx-replacement-char"
+	findingLikeFn        = "C04-like-backslash-function-operand"
 )
 
 func TestMain(m *testing.M) {
@@ -89,6 +90,23 @@ var shapes = []shape{
 	{"lit", "asp-where", "match p = allShortestPaths((a)-[*..]->(b)) where a.name = 'start' and b.name = <V> return p", nil},
 	{"lit", "asp-map", "match p = allShortestPaths((a {name: <V>})-[:R*..]->(b:B)) return p", nil},
 	{"lit", "sp-in", "match p = shortestPath((a:A)-[*..]->(b)) where b.name in [<V>, 'x'] return p", nil},
+	{"lit", "coalesce", "match (n) return coalesce(n.name, <V>) as x", nil},
+	{"lit", "split", "match (n) return split(n.name, <V>) as x", nil},
+	{"lit", "date", "match (n) where n.when = date(<V>) return n", nil},
+	{"lit", "datetime", "match (n) where n.when = datetime(<V>) return n", nil},
+	{"lit", "duration", "match (n) where n.when < datetime() - duration(<V>) return n", nil},
+	{"lit", "tostring", "match (n) return toString(<V>) as x", nil},
+	{"lit", "pattern-pred", "match (n) where (n)-[:R]->({name: <V>}) return n", nil},
+	{"lit", "type-in", "match (n)-[r]->(m) where type(r) in [<V>, 'y'] return r", nil},
+	{"lit", "less-than", "match (n) where n.name < <V> return n", nil},
+	{"lit", "list-eq", "match (n) where n.list = [<V>] return n", nil},
+	{"lit", "size-ne", "match (n) where size(n.name) > 1 and n.name <> <V> return n", nil},
+	{"lit", "not-in", "match (n) where not n.name in [<V>] return n", nil},
+	{"lit", "set-prop", "match (n) set n.name = <V> return n", nil},
+	{"lit", "create-node", "create (n:A {name: <V>}) return n", nil},
+	{"lit", "create-rel", "match (a), (b) create (a)-[r:T {tag: <V>}]->(b) return r", nil},
+	{"lit", "delete-where", "match (n) where n.name = <V> delete n", nil},
+	{"lit", "with-tick-alias", "match (n) with n, <V> as `t y` return n, `t y`", nil},
 	{"like", "contains", "match (n) where n.name contains <V> return n", nil},
 	{"like", "starts", "match (n) where n.name starts with <V> return n", nil},
 	{"like", "ends", "match (n) where n.name ends with <V> return n", nil},
@@ -96,6 +114,10 @@ var shapes = []shape{
 	{"like", "varlen-contains", "match (n)-[*1..2]->(m) where m.name contains <V> return m", nil},
 	{"like", "sp-contains", "match p = shortestPath((a)-[*..]->(b:B)) where a.name contains <V> return p", nil},
 	{"like", "asp-starts", "match p = allShortestPaths((a)-[*..]->(b)) where a.name starts with <V> and b.name ends with 'z' return p", nil},
+	{"likefn", "lower-contains", "match (n) where toLower(n.name) contains <V> return n", nil},
+	{"likefn", "coalesce-starts", "match (n) where coalesce(n.name, '') starts with <V> return n", nil},
+	{"likefn", "type-ends", "match (n)-[r]->(m) where type(r) ends with <V> return r", nil},
+	{"likefn", "asp-coalesce-contains", "match p = allShortestPaths((a:A)<-[:R*..]-(b)) where coalesce(a.tags, '') contains <V> and b.name = '123' return p", nil},
 	{"litkind", "type-eq", "match (n)-[r]->(m) where type(r) = <V> return r", nil},
 	// property keys
 	{"key", "where", "match (n) where n.<V> = 1 return n", nil},
@@ -112,6 +134,9 @@ var shapes = []shape{
 	{"key", "map-rel", "match ()-[r {<V>: 1}]->() return r", nil},
 	{"key", "sp-where", "match p = shortestPath((a)-[*..]->(b)) where a.<V> = 'x' and b.name = 'y' return p", nil},
 	{"key", "asp-map", "match p = allShortestPaths((a {<V>: 'x'})-[*..]->(b:B)) return p", nil},
+	{"key", "set", "match (n) set n.<V> = 1 return n", nil},
+	{"key", "remove", "match (n) remove n.<V> return n", nil},
+	{"key", "create", "create (n:A {<V>: 1}) return n", nil},
 	// kinds
 	{"kind", "node-label", "match (n:<V>) return n", nil},
 	{"kind", "rel-type", "match (n)-[r:<V>]->(m) return r", nil},
@@ -119,6 +144,10 @@ var shapes = []shape{
 	{"kind", "rel-alt", "match (n)-[r:Other|<V>]->(m) return r", nil},
 	{"kind", "varlen", "match (n)-[:<V>*1..2]->(m) return m", nil},
 	{"kind", "sp", "match p = shortestPath((a:<V>)-[*..]->(b:B)) return p", nil},
+	{"kind", "set-label", "match (n) set n:<V> return n", nil},
+	{"kind", "remove-label", "match (n) remove n:<V> return n", nil},
+	{"kind", "create-node", "create (n:<V>) return n", nil},
+	{"kind", "create-rel", "match (a), (b) create (a)-[r:<V>]->(b) return r", nil},
 	// variables
 	{"var", "node", "match (<V>) return <V>", nil},
 	{"var", "node-prop", "match (<V>) where <V>.name = 'x' return <V>.name as x", nil},
@@ -150,6 +179,12 @@ var shapes = []shape{
 	{"param", "sp-contains", "match p = shortestPath((a)-[*..]->(b:B)) where a.name contains $q return p", []string{"string"}},
 	{"param", "asp-starts", "match p = allShortestPaths((a:A)-[*..]->(b)) where b.name starts with $q return p", []string{"string"}},
 	{"param", "asp-in", "match p = allShortestPaths((a)-[*..]->(b)) where a.name = 'x' and b.name in $q return p", []string{"strings", "anylist"}},
+	{"param", "regex", "match (n) where n.name =~ $q return n", []string{"string"}},
+	{"param", "concat", "match (n) return n.name + $q as x", []string{"string"}},
+	{"param", "starts", "match (n) where n.name starts with $q return n", []string{"string"}},
+	{"param", "lower-eq", "match (n) where toLower(n.name) = toLower($q) return n", []string{"string"}},
+	{"param", "set-prop", "match (n) set n.name = $q return n", []string{"string"}},
+	{"param", "create", "create (n:A {name: $q}) return n", []string{"string"}},
 }
 
 var (
@@ -215,7 +250,7 @@ func paramValue(ptype, v string) any {
 
 func build(sh *shape, c Case, v string) (variant, error) {
 	switch sh.Pos {
-	case "lit", "like", "litkind":
+	case "lit", "like", "likefn", "litkind":
 		q := byte('\'')
 		if c.Quote == "\"" {
 			q = '"'
@@ -283,6 +318,9 @@ type cmpCtx struct {
 	slots     int
 	innerSQL  int
 	likeSlots int
+	// likeExact: the value reads back as literal text; likeVerbatim: the value was copied into the pattern
+	// unescaped and contains pattern syntax (meaning changes, token structure does not)
+	likeExact, likeVerbatim int
 	identSlot int
 }
 
@@ -406,43 +444,53 @@ func (cc *cmpCtx) slot(where string, ht, bt []sqltok.Token, i, depth int) error 
 			bt[i-1].Kind == sqltok.Word && bt[i-1].Value == ht[i-1].Value
 		switch {
 		case prevLike:
-			be, err := likeElems(b.Value)
-			if err != nil {
-				return fail("benign LIKE pattern: %v", err)
+			// The benign pattern is P + b + S. With PostgreSQL's LIKE reading (backslash escapes the next
+			// character) the hostile pattern must be well formed, P and S must still read as they did (the value
+			// may not turn a wildcard of the template into text or swallow it), and what lies between must be the
+			// value: either escaped so that it reads back as literal text, or verbatim (then % _ \ of the value act
+			// as pattern syntax inside the value's own span: a change of MEANING, which is C01's business).
+			idx := strings.Index(b.Value, cc.b)
+			if idx < 0 {
+				return fail("LIKE pattern differs but the benign pattern %q does not contain the benign value", b.Value)
+			}
+			P, S := b.Value[:idx], b.Value[idx+len(cc.b):]
+			if strings.Contains(P+S, "\\") {
+				return fail("harness: benign LIKE affixes contain an escape: %q", b.Value)
 			}
 			he, err := likeElems(h.Value)
 			if err != nil {
 				return fail("the LIKE pattern PostgreSQL reads back is invalid: %v (pattern %s)", err, clipStr(h.Value, 200))
 			}
-			// expected: the benign elements with the literal run b replaced by the literal run v
-			var want []likeElem
-			replaced := false
-			for k := 0; k < len(be); {
-				if !replaced && be[k].wild == 0 && k+len(cc.b) <= len(be) {
-					match := true
-					for m := 0; m < len(cc.b); m++ {
-						if be[k+m].wild != 0 || be[k+m].lit != cc.b[m] {
-							match = false
-							break
-						}
-					}
-					if match {
-						for m := 0; m < len(cc.v); m++ {
-							want = append(want, likeElem{lit: cc.v[m]})
-						}
-						k += len(cc.b)
-						replaced = true
-						continue
+			if len(he) < len(P)+len(S) || len(h.Value) < len(P)+len(S) {
+				return fail("the LIKE pattern %s is shorter than the template %q", clipStr(h.Value, 200), b.Value)
+			}
+			for k := 0; k < len(P); k++ {
+				if (he[k] != likeElem{wild: P[k]}) && (he[k] != likeElem{lit: P[k]} || P[k] == '%' || P[k] == '_') {
+					return fail("the value changed how the LIKE template before it is read: pattern %s, template %q", clipStr(h.Value, 200), b.Value)
+				}
+			}
+			for k := 0; k < len(S); k++ {
+				e := he[len(he)-len(S)+k]
+				if (e != likeElem{wild: S[k]}) && (e != likeElem{lit: S[k]} || S[k] == '%' || S[k] == '_') {
+					return fail("the value changed how the LIKE template after it is read (a wildcard of the template is now literal text or was swallowed): pattern %s, template %q", clipStr(h.Value, 200), b.Value)
+				}
+			}
+			mid := he[len(P) : len(he)-len(S)]
+			exact := len(mid) == len(cc.v)
+			if exact {
+				for k, e := range mid {
+					if e.wild != 0 || e.lit != cc.v[k] {
+						exact = false
+						break
 					}
 				}
-				want = append(want, be[k])
-				k++
 			}
-			if !replaced {
-				return fail("LIKE pattern differs but the benign pattern %q does not contain the benign value", b.Value)
-			}
-			if !reflect.DeepEqual(he, want) {
-				return fail("the LIKE pattern PostgreSQL reads back (%s) is not the benign pattern %q with the value substituted as literal text", clipStr(h.Value, 200), b.Value)
+			if exact {
+				cc.likeExact++
+			} else if !strings.HasPrefix(h.Value, P) || !strings.HasSuffix(h.Value, S) || h.Value[len(P):len(h.Value)-len(S)] != cc.v {
+				return fail("the LIKE pattern PostgreSQL reads back (%s) carries neither the value as literal text nor the value verbatim; template %q", clipStr(h.Value, 200), b.Value)
+			} else {
+				cc.likeVerbatim++
 			}
 			cc.likeSlots++
 		case b.Value == cc.b:
@@ -753,7 +801,7 @@ func oracle(c Case) (evid.Info, error) {
 	}
 	render := c.Style
 	switch sh.Pos {
-	case "lit", "like", "litkind":
+	case "lit", "like", "likefn", "litkind":
 		if render != "esc" {
 			render = "min"
 		}
@@ -836,8 +884,11 @@ func oracle(c Case) (evid.Info, error) {
 			if cc.identSlot > 0 {
 				info.Classes = append(info.Classes, "carried-by=identifier")
 			}
-			if cc.likeSlots > 0 {
-				info.Classes = append(info.Classes, "carried-by=like-pattern")
+			if cc.likeExact > 0 {
+				info.Classes = append(info.Classes, "carried-by=like-pattern(escaped)")
+			}
+			if cc.likeVerbatim > 0 {
+				info.Classes = append(info.Classes, "carried-by=like-pattern(verbatim; wildcards in the value act as wildcards: C01)")
 			}
 			if cc.slots > cc.identSlot+cc.likeSlots {
 				info.Classes = append(info.Classes, "carried-by=string-literal")
@@ -911,6 +962,11 @@ func applyExclusions(c *Case, sh *shape) bool {
 			changed = true
 		}
 	}
+	if sh.Pos == "likefn" && evid.R.KnownOpen(findingLikeFn) && strings.Contains(c.value(), "\\") {
+		c.V = strings.ReplaceAll(c.V, "\\", "/")
+		c.Pad = strings.ReplaceAll(c.Pad, "\\", "/")
+		changed = true
+	}
 	if sh.Pos == "kind" && c.Style != "bare" && evid.R.KnownOpen(findingKindBackticks) {
 		c.KindLax = true
 	}
@@ -932,7 +988,7 @@ func genFor(check string, positions ...string) func(t *rapid.T) Case {
 		sh := pool[rapid.IntRange(0, 1<<20).Draw(t, "shape")%len(pool)]
 		c := Case{Shape: sh.Pos + "/" + sh.Name}
 		switch sh.Pos {
-		case "lit", "like", "litkind":
+		case "lit", "like", "likefn", "litkind":
 			c.Quote = rapid.SampledFrom([]string{"'", "\""}).Draw(t, "quote")
 			c.Style = rapid.SampledFrom([]string{"min", "esc"}).Draw(t, "style")
 			c.V, c.Pad, c.PadN = genHostile(t, evid.R.Thorough())
@@ -959,7 +1015,7 @@ func genFor(check string, positions ...string) func(t *rapid.T) Case {
 }
 
 func TestC04Literals(t *testing.T) {
-	evid.Prop(t, "literal", evid.R.N(6000, 12000), genFor("literal", "lit", "like", "litkind"), oracle)
+	evid.Prop(t, "literal", evid.R.N(6000, 12000), genFor("literal", "lit", "like", "likefn", "litkind"), oracle)
 }
 
 func TestC04Names(t *testing.T) {
